@@ -143,7 +143,9 @@ func TestC19Foreign(t *testing.T) {
 		var c c19fCase
 		c.Target = rapid.SampledFrom(c19fTargets).Draw(t, "target")
 		c.Form = rapid.SampledFrom(c19fForms).Draw(t, "form")
-		c.Cmd = rapid.SampledFrom([]string{"build", "build", "run", "test"}).Draw(t, "cmd")
+		// `garble test` lists the test dependencies before it looks at -debugdir, which costs a minute on a
+		// cache that holds no export data for them; the -debugdir handling is the same code for every command
+		c.Cmd = rapid.SampledFrom([]string{"build", "build", "run"}).Draw(t, "cmd")
 		c.Names = rapid.SliceOfN(rapid.IntRange(0, len(c19fNames)-1), 1, 4).Draw(t, "names")
 		v, labels := c19fRun(c)
 		stats.Case(stats.Desc(c.Target, c.Form, c.Cmd), true, labels, map[string]any{"target": c.Target, "form": c.Form, "cmd": c.Cmd})
